@@ -155,6 +155,12 @@ Theorem C15_family_covers : forall g m,
   influence_covers g (fam_rate g m) (fam_infl g m).
 Proof. exact fam_covers. Qed.
 
+(* long-range models (rates depending on nodes anywhere) with the whole node set
+   as influence set cover, on every graph *)
+Theorem C15_family_covers_long_range : forall g m, cm_infl m = 2%N ->
+  influence_covers g (fam_rate g m) (fam_infl g m).
+Proof. exact fam_covers_global. Qed.
+
 Theorem C15_family_rates_nonneg : forall g m,
   (forall u v, 0 <= ew g u v) -> (forall u, 0 <= nw g u) ->
   (forall r, In r (cm_rows m) -> 0 <= r_base r /\ 0 <= r_slope r /\ 0 <= r_low r) ->
@@ -187,6 +193,7 @@ Print Assumptions C15_missing_ic_is_keyerror.
 Print Assumptions C15_fuel_suffices.
 Print Assumptions C15_refines_direct_method.
 Print Assumptions C15_family_covers.
+Print Assumptions C15_family_covers_long_range.
 Print Assumptions C15_family_rates_nonneg.
 Print Assumptions C15_example_hypotheses.
 Print Assumptions C15_example_run.
